@@ -203,7 +203,7 @@ theorem stream_extent_recovery (pre body rest startEol endEol : Bytes)
         have := hdecl d hdc
         simp only [List.length_cons, List.length_nil] at this
         simp only [file, start, List.length_cons, List.length_nil] at *
-        simp only [this, Bool.false_eq_true, if_false]
+        simp only [this, Bool.and_false, Bool.false_eq_true, if_false]
         exact hrecover
     · simp only [List.cons_append, List.nil_append]
       have hs : pre.length + 6 + 2 = start := by simp [start]
@@ -214,9 +214,32 @@ theorem stream_extent_recovery (pre body rest startEol endEol : Bytes)
         have := hdecl d hdc
         simp only [List.length_cons, List.length_nil] at this
         simp only [file, start, List.length_cons, List.length_nil] at *
-        simp only [this, Bool.false_eq_true, if_false]
+        simp only [this, Bool.and_false, Bool.false_eq_true, if_false]
         exact hrecover
   · rw [hdropS]; exact take_len_append _ _
+
+/-- bfd427f: a declared length whose end does not fit an `int64` is not probed; the stream is read
+    exactly as if `/Length` were missing (recovery by the `endstream` search) -/
+theorem length_overflow_is_unknown (file : Bytes) (pos d : Nat)
+    (h : ∀ start, pos ≤ start → lengthFits start d = false) :
+    readStreamData file pos (some d) = readStreamData file pos none := by
+  simp only [readStreamData]
+  split
+  · rfl
+  · split
+    · rfl
+    · rename_i k _
+      simp only [h (pos + 6 + k) (by omega), Bool.false_and, Bool.false_eq_true, if_false]
+
+theorem lengthFits_false (start d : Nat) (h : start + d > 9223372036854775807) : lengthFits start d = false := by
+  unfold lengthFits
+  simp only [decide_eq_false_iff_not]
+  omega
+
+example : (match readStreamData ("stream\nabc\nendstream".toList.map (·.toNat)) 0 (some 9223372036854775806) with
+    | .ok e => e.start == 7 && e.len == 3 && e.after == 20 | _ => false) = true := by decide +kernel
+example : (match readStreamData ("stream\nabc\nendstream".toList.map (·.toNat)) 0 (some 9223372036854775800) with
+    | .ok e => e.start == 7 && e.len == 3 && e.after == 20 | _ => false) = true := by decide +kernel
 
 -- non-vacuity: the body `a endstream\rb` (contains the keyword, a CR and ends in a regular byte),
 -- CR LF before the real `endstream`, and a wrong `/Length 3`: hypotheses hold, extent is the body
